@@ -628,6 +628,9 @@ func (fc *FCtx) specCall(n *SNode, env *Env) Val {
 		cs := fc.ctxTheory()
 		fc.U.Fun("unwrap_ctx", []*Sort{args[0].S}, cs)
 		return Val{T: app("unwrap_ctx", args[0].T), S: cs}
+	case "bzcat":
+		evalArgs()
+		return Val{T: fmt.Sprintf("(bz_cat %s %s)", fc.toBz(args[0]), fc.toBz(args[1])), S: fc.U.BzSort()}
 	case "bzslice":
 		evalArgs()
 		return Val{T: fmt.Sprintf("(bz_slice %s %s %s)", fc.toBz(args[0]), args[1].T, args[2].T), S: fc.U.BzSort()}
